@@ -9,9 +9,7 @@ def hamming (a b : Bytes) : Nat := (a.zip b).foldl (fun n (x, y) => if x = y the
 def bdecTok (s : Bytes) : String :=
   match Bech32.Decode s with
   | .ok (h, d) => s!"ok:{Bytes.tok h}:{Bytes.tok d}"
-  | .error e => "err:" ++ (match e with
-      | .length => "length" | .char => "char" | .mixedCase => "case" | .sep => "sep"
-      | .charset => "charset" | .checksum => "checksum")
+  | .error _ => "err"
 
 def cdecTok (s : Bytes) : String :=
   match CashAddr.DecodeCashAddress s with
